@@ -342,10 +342,16 @@ func zeroPathString(z zeroPath) string {
 
 // inPlaceSanitised: fn returns its slice parameter after a whole-range in-place loop
 // that overwrites every element (A3 passes) - the J10 justification for `return arr`.
-func (p *Prov) inPlaceSanitised(fn *ssa.Function, v ssa.Value) bool {
+func (p *Prov) inPlaceSanitised(fn *ssa.Function, v ssa.Value, at *ssa.BasicBlock) bool {
 	for _, ic := range p.walkerLoops(fn) {
 		if ic.Mode != "in-place" || ic.Out != v {
 			continue
+		}
+		// the return must lie behind the loop on every path: the loop header dominates it
+		// and it is not inside the loop (an early `return arr` skips the overwrite)
+		hdr := ic.Loop.Loop.Header
+		if at != nil && (!hdr.Dominates(at) || ic.Loop.Loop.Body[at]) {
+			return false
 		}
 		if !ic.Whole || len(ic.MultiStore) > 0 || len(ic.KeyProblems) > 0 || ic.EarlyExits > 0 {
 			return false
